@@ -30,6 +30,10 @@ enum Ep {
     TokenRevoke,
     /// the holder B re-approves A for the amount that is left, but only for 5 more ledgers
     TokenShorten,
+    /// the holder re-approves exactly one delegated operation's worth (2) with a near expiration
+    TokenShortenExact,
+    /// the holder revokes with the customary (amount 0, expiration 0) form
+    TokenRevokePast,
     /// not an entry point: 20 ledgers pass (once)
     AdvanceLedgers,
     GasPay,
@@ -44,8 +48,8 @@ enum Ep {
     OperatorsExecute,
     ExampleSend,
 }
-const EPS: [Ep; 22] = [
-    Ep::TokenApprove, Ep::TokenTransfer, Ep::TokenTransferFrom, Ep::TokenBurn, Ep::TokenBurnFrom, Ep::TokenTransferFromNoAllowance, Ep::TokenBurnFromNoAllowance, Ep::TokenMintFrom, Ep::TokenRevoke, Ep::TokenShorten, Ep::AdvanceLedgers,
+const EPS: [Ep; 24] = [
+    Ep::TokenApprove, Ep::TokenTransfer, Ep::TokenTransferFrom, Ep::TokenBurn, Ep::TokenBurnFrom, Ep::TokenTransferFromNoAllowance, Ep::TokenBurnFromNoAllowance, Ep::TokenMintFrom, Ep::TokenRevoke, Ep::TokenShorten, Ep::TokenShortenExact, Ep::TokenRevokePast, Ep::AdvanceLedgers,
     Ep::GasPay, Ep::GasAdd, Ep::GwCallContract, Ep::GwValidateMessage, Ep::ItsDeploy, Ep::ItsDeployRemote,
     Ep::ItsDeployRemoteCanonical, Ep::ItsTransfer, Ep::ItsTransferCanonical, Ep::OperatorsExecute, Ep::ExampleSend,
 ];
@@ -141,7 +145,7 @@ impl C07 {
         let env = &w.env;
         let target_of = |ep: Ep| -> Address {
             match ep {
-                Ep::TokenApprove | Ep::TokenTransfer | Ep::TokenTransferFrom | Ep::TokenBurn | Ep::TokenBurnFrom | Ep::TokenTransferFromNoAllowance | Ep::TokenBurnFromNoAllowance | Ep::TokenMintFrom | Ep::TokenRevoke | Ep::TokenShorten | Ep::AdvanceLedgers => ctx.tok.clone(),
+                Ep::TokenApprove | Ep::TokenTransfer | Ep::TokenTransferFrom | Ep::TokenBurn | Ep::TokenBurnFrom | Ep::TokenTransferFromNoAllowance | Ep::TokenBurnFromNoAllowance | Ep::TokenMintFrom | Ep::TokenRevoke | Ep::TokenShorten | Ep::TokenShortenExact | Ep::TokenRevokePast | Ep::AdvanceLedgers => ctx.tok.clone(),
                 Ep::GasPay | Ep::GasAdd => iw.gas.clone(),
                 Ep::GwCallContract | Ep::GwValidateMessage => iw.gw.clone(),
                 Ep::OperatorsExecute => ctx.ops.clone(),
@@ -174,6 +178,8 @@ impl C07 {
             // revocation: holder B approves A for zero (the named, authorising address is B)
             Ep::TokenRevoke => ("approve", vec![ctx.b.to_val(), ctx.a.to_val(), w.v(0i128), w.v(w.seq() + 500)]),
             Ep::TokenShorten => ("approve", vec![ctx.b.to_val(), ctx.a.to_val(), w.v(m.allow_left[0]), w.v(w.seq() + 5)]),
+            Ep::TokenShortenExact => ("approve", vec![ctx.b.to_val(), ctx.a.to_val(), w.v(2i128), w.v(w.seq() + 5)]),
+            Ep::TokenRevokePast => ("approve", vec![ctx.b.to_val(), ctx.a.to_val(), w.v(0i128), w.v(0u32)]),
             Ep::AdvanceLedgers => ("balance", vec![ctx.a.to_val()]),
             Ep::GasPay => ("pay_gas", vec![ctx.s.to_val(), sv("chain"), sv("addr"), to_val(env, &sbytes(b"pl")), n, gas(if named == Named::Target { 1 } else if alt { 2 } else { 1 }), to_val(env, &sbytes(b""))]),
             Ep::GasAdd => ("add_gas", vec![ctx.s.to_val(), sv("msg"), n, gas(if named == Named::Target { 1 } else if alt { 2 } else { 1 })]),
@@ -315,7 +321,7 @@ impl Scenario for C07 {
                         continue;
                     }
                 }
-                if matches!(ep, Ep::TokenRevoke | Ep::TokenShorten) && !matches!(var, Var::Counterparty | Var::Named | Var::Stranger | Var::Nobody) {
+                if matches!(ep, Ep::TokenRevoke | Ep::TokenShorten | Ep::TokenShortenExact | Ep::TokenRevokePast) && !matches!(var, Var::Counterparty | Var::Named | Var::Stranger | Var::Nobody) {
                     continue;
                 }
                 if ep == Ep::AdvanceLedgers && (var != Var::Named || m.advanced) {
@@ -396,18 +402,21 @@ impl Scenario for C07 {
         out.accepted = call.ok;
         let no_allowance = matches!(ep, Ep::TokenTransferFromNoAllowance | Ep::TokenBurnFromNoAllowance);
         // the revocation is B's own operation: accepted iff B (the counterparty principal) signs
-        if ep == Ep::TokenShorten {
+        if matches!(ep, Ep::TokenShorten | Ep::TokenShortenExact) {
             let want = a.var == Var::Counterparty;
             out.expect(call.ok == want, "auth.outcome", || format!("re-approval by {:?}: ok={} ({})", a.var, call.ok, call.err));
             if call.ok && want {
                 m.allow_exp = m.seq + 5;
-                m.revoked = false || m.revoked;
+                if ep == Ep::TokenShortenExact {
+                    m.allow_left[0] = 2;
+                    m.revoked = false;
+                }
             } else if !call.ok {
                 out.expect(h0 == w.state_hash(), "refused-but-changed-state", || format!("{:?}", a));
             }
             return;
         }
-        if ep == Ep::TokenRevoke {
+        if matches!(ep, Ep::TokenRevoke | Ep::TokenRevokePast) {
             let want = a.var == Var::Counterparty;
             out.expect(call.ok == want, "auth.outcome", || format!("revocation by {:?}: ok={} ({})", a.var, call.ok, call.err));
             if call.ok && want {
@@ -471,7 +480,7 @@ fn main() {
         let thorough = tier == "thorough";
         let mut o = Opts::new(tier, if thorough { 4 } else { 3 });
         o.min_depth = 2;
-        o.rule = "20 entry points plus ledger advancement (token approve / transfer / transfer_from / burn / burn_from / transfer_from and burn_from against a holder who granted no allowance (always refused) / mint_from / a revocation and a shortening of the allowance by the holder after which (or after whose expiry) the spender's delegated calls are refused; the holder's allowance is 3 and delegated calls move 2, so a second one exceeds it; gas pay_gas / add_gas; gateway call_contract / validate_message; ITS deploy_interchain_token (naming the counterparty as minter) / deploy_remote_interchain_token / deploy_remote_canonical_token / interchain_transfer of a service-deployed and of a canonical token; operators execute; example send) x 12 authorisation modes {the named address; the counterparty / recipient; the contracts' owner; a stranger; nobody; the named address for an altered argument; the named address for the root call but not the nested debit or gas payment; the named address for the same function with other arguments; the named address being the calling contract; a contract naming someone else; the call naming the called contract itself with nobody authorising; all amounts and gas zero with nobody authorising}, in every state of all histories of successful operations up to the bound; accepted only in the three legitimate modes, ledger bit-identical otherwise".into();
+        o.rule = "23 entry points plus ledger advancement (token approve / transfer / transfer_from / burn / burn_from / transfer_from and burn_from against a holder who granted no allowance (always refused) / mint_from / a revocation (with a future and with a zero expiration), a shortening of the allowance and a re-approval of exactly one delegated operation's worth with a near expiration by the holder after which (or after whose expiry) the spender's delegated calls are refused; the holder's allowance is 3 and delegated calls move 2, so a second one exceeds it; gas pay_gas / add_gas; gateway call_contract / validate_message; ITS deploy_interchain_token (naming the counterparty as minter) / deploy_remote_interchain_token / deploy_remote_canonical_token / interchain_transfer of a service-deployed and of a canonical token; operators execute; example send) x 12 authorisation modes {the named address; the counterparty / recipient; the contracts' owner; a stranger; nobody; the named address for an altered argument; the named address for the root call but not the nested debit or gas payment; the named address for the same function with other arguments; the named address being the calling contract; a contract naming someone else; the call naming the called contract itself with nobody authorising; all amounts and gas zero with nobody authorising}, in every state of all histories of successful operations up to the bound; accepted only in the three legitimate modes, ledger bit-identical otherwise".into();
         (C07 { max_successes: if thorough { 4 } else { 2 } }, o)
     });
 }
